@@ -67,6 +67,16 @@ theorem parseSlice_none_of_head (s : List Char) (h : s.head? ≠ some '[') : par
     · rename_i heq; simp at heq; exact absurd heq.1 h
     · rfl
 
+theorem sliceRaises_false_of_head (s : List Char) (h : s.head? ≠ some '[') : sliceRaises s = false := by
+  cases s with
+  | nil => rfl
+  | cons c t =>
+    simp only [List.head?_cons, ne_eq, Option.some.injEq] at h
+    unfold sliceRaises
+    split
+    · rename_i heq; simp at heq; exact absurd heq.1 h
+    · rfl
+
 theorem parseFormat_none_brace (more : List Char) : parseFormat ('}' :: more) = none := by
   simp [parseFormat]
 
@@ -87,7 +97,8 @@ theorem scan_piece (fuel : Nat) (p : Piece) (hp : PieceOK p) (more : List Char) 
         scanTemplate, if_true, List.dropWhile_cons_of_neg (show ¬ isWs '{' = true by decide)]
       rw [ht.1, ht.2]
       have hs : parseSlice ('}' :: more) = none := parseSlice_none_of_head _ (by simp)
-      simp [hs, parseFormat_none_brace, hne]
+      have hr : sliceRaises ('}' :: more) = false := sliceRaises_false_of_head _ (by simp)
+      simp [hs, hr, parseFormat_none_brace, hne]
     | some f =>
       have hfo := hfm f rfl
       obtain ⟨a, b, hfe, _, _, _⟩ := hfo.ex
@@ -98,7 +109,9 @@ theorem scan_piece (fuel : Nat) (p : Piece) (hp : PieceOK p) (more : List Char) 
       rw [ht.1, ht.2]
       have hs : parseSlice (f ++ '}' :: more) = none := by
         apply parseSlice_none_of_head; rw [hfe]; simp
-      simp [hs, parseFormat_render f more hfo, hne]
+      have hr : sliceRaises (f ++ '}' :: more) = false := by
+        apply sliceRaises_false_of_head; rw [hfe]; simp
+      simp [hs, hr, parseFormat_render f more hfo, hne]
 
 /-! rendering with slices (used only by the full statement kept in `Props/C18.lean`) -/
 
@@ -106,11 +119,11 @@ def renderBound : Option Nat → List Char
   | none => []
   | some n => (toString n).toList
 
-def renderSlicePart : Option Nat × Option Nat → List Char
-  | (some a, some b) => if a = b then (toString a).toList else (toString a).toList ++ ':' :: (toString b).toList
-  | (a, b) => renderBound a ++ ':' :: renderBound b
+def renderSlicePart : SliceEntry → List Char
+  | .idx n => (toString n).toList
+  | .range a b => renderBound a ++ ':' :: renderBound b
 
-def renderSlice (sl : List (Option Nat × Option Nat)) : List Char :=
+def renderSlice (sl : List SliceEntry) : List Char :=
   '[' :: (List.intercalate [','] (sl.map renderSlicePart)) ++ [']']
 
 def renderPieceS : Piece → List Char
